@@ -161,6 +161,10 @@ def run(chk: common.Check):
                 for h in g.non_covalently_coupled_groups:
                     if g not in h.non_covalently_coupled_groups:
                         found.append(("coupling-asymmetric", f"{name} ({cname}): {g.label} lists {h.label} as coupled but not vice versa", {"case": name, "conformation": cname}))
+                ids = [id(h) for h in g.non_covalently_coupled_groups]
+                if len(ids) != len(set(ids)):      # C15_partners_listed_once
+                    found.append(("coupling-partner-listed-twice", f"{name} ({cname}): {g.label} lists a coupled partner more than once: "
+                                  f"{[x.label for x in g.non_covalently_coupled_groups]}", {"case": name, "conformation": cname}))
                 for rpg in (False, True):
                     s = g.get_determinant_string(rpg)
                     first = s.split("\n")[0] if s else ""
